@@ -20,9 +20,9 @@ TAGS = {"C02": "C02:", "C03": "C03:", "C04": "C04:", "C05": "C05:", "C06": "C06:
 
 # model slices: constants of Pool.tla per property and tier
 BASE = dict(NReq=3, NOrig=1, MaxDial=2, MaxTick=0, AsBuilt="{}", Caps="{TRUE, FALSE}", MaxIdles="{1, 2}",
-            IdleTimeouts="{0}", Protos="{TRUE, FALSE}", Faults="SomeFaults", Spurious="FALSE")
+            IdleTimeouts="{0}", Protos="{TRUE, FALSE}", Faults="SomeFaults", Spurious="FALSE", AllowDrop="FALSE")
 INVS = "TypeOK C02state HandleUnique C15 NoOrphan PureHasOwner MarkerHasOwner"
-PROPS = "C02step C06step C05step C05pop C14a C04iv C04kept C04issue C04dial NoSpuriousError"
+PROPS = "C02step C06step C05step C05pop C14a C04iv C04ivIdle C04kept C04issue C04dial NoSpuriousError"
 
 SLICES = {
     "quick": {
@@ -36,7 +36,7 @@ SLICES = {
     },
     "thorough": {
         "C02": dict(MaxDial=3, Faults="AllFaults"),
-        "C03": dict(MaxDial=3),
+        "C03": dict(MaxDial=3, MaxIdles="{1}", AllowDrop="TRUE"),
         "C04": dict(MaxDial=3),
         "C05": dict(Protos="{TRUE, FALSE}", MaxTick=2, IdleTimeouts="{0, 1, 2, 3}", Faults="CloseOnly", MaxDial=3),
         "C06": dict(NOrig=2, MaxDial=3, Faults="SomeFaults"),
@@ -49,11 +49,12 @@ SLICES = {
 WALKS = {
     "quick": {
         "C02": [["--runs", 300, "--steps", 45, "--origins", 2, "--maxreq", 6]],
-        "C03": [["--runs", 400, "--steps", 40, "--origins", 1, "--maxreq", 5, "--h2prob", "0.7", "--cancelw", 3]],
+        "C03": [["--runs", 350, "--steps", 40, "--origins", 1, "--maxreq", 5, "--h2prob", "0.7", "--cancelw", 3],
+                ["--runs", 100, "--steps", 40, "--origins", 2, "--maxreq", 6, "--h2prob", "0.6", "--droppool"]],
         "C04": [["--runs", 350, "--steps", 40, "--origins", 1, "--maxreq", 6, "--h2prob", "0.6"],
                 ["--runs", 25, "--steps", 45, "--origins", 1, "--maxreq", 7, "--h2prob", "0.15", "--tick", "--cancelw", 1]],
         "C05": [["--runs", 60, "--steps", 40, "--origins", 1, "--maxreq", 6, "--h2prob", "0.2", "--tick", "--closew", 3]],
-        "C06": [["--runs", 300, "--steps", 45, "--origins", 6, "--maxreq", 8, "--cancelw", 1]],
+        "C06": [["--runs", 300, "--steps", 50, "--origins", 9, "--maxreq", 10, "--cancelw", 1]],
         "C14": [["--runs", 400, "--steps", 40, "--origins", 1, "--maxreq", 6, "--h2prob", "0.4"]],
         "C15": [["--runs", 300, "--steps", 50, "--origins", 2, "--maxreq", 8, "--h2prob", "0.1", "--cancelw", 1]],
     },
